@@ -249,6 +249,7 @@ class Gen:
             return (v, str(v))
         if k == "ENUMERATED":
             n, v = t["items"][0]
+            if v is not None and v < 0: return None      # F43: negative DEFAULT => uncompilable identifier
             return (v if v is not None else 0, n)
         return None
 
